@@ -82,7 +82,9 @@ PredOf(sm, tr) ==   \* prediction token of the prepared stage for an experiment 
 PSmap == T.prepared.smap
 PTmap == T.prepared.tmap
 Ok03(a) == ~a.live \/
-    /\ a.smap = PSmap /\ a.tmap = PTmap
+    \* the carried tables hold the same (name -> id) entries as the prepared ones (C03 is about the association, not about the order
+    \* in which a table lists its entries)
+    /\ SetOf(a.smap) = SetOf(PSmap) /\ Len(a.smap) = Len(PSmap) /\ SetOf(a.tmap) = SetOf(PTmap) /\ Len(a.tmap) = Len(PTmap)
     /\ a.sids = [x \in 1..Len(a.sample) |-> Lookup1(a.sample[x], PSmap)]
     /\ a.tids = [x \in 1..Len(a.treat) |-> [c \in 1..Arity |-> Lookup(a.treat[x][c], PTmap)]]
     /\ a.nut >= NUniqueTreatments(PTmap) /\ a.nus >= NUniqueSamples(PSmap)
